@@ -1,5 +1,6 @@
 import TaskModel.Vars.Lemmas
 import TaskModel.Gen.VarLayers
+import TaskModel.Gen.Load
 /-!
 # C10 — Variable and environment precedence follows the documented order
 
@@ -31,6 +32,12 @@ theorem C10_layers :
     TaskModel.Gen.VarLayers.firstDotenvWins = true ∧
     TaskModel.Gen.VarLayers.appendsToOsEnviron = true ∧
     TaskModel.Gen.VarLayers.osEnvGuard = "!experiments.EnvPrecedence.Enabled() : alreadySet=>continue" := by decide
+
+/-- the "variables of the included Taskfile" layer of an included task is made of the
+included file's own variables (`Taskfile.Merge` hands `t2.Vars` to `Tasks.Merge`), not of
+the including file's merged globals — otherwise a parent global would outrank the include
+statement's `vars:` -/
+theorem C10_included_layer_is_included_files_vars : TaskModel.Gen.Load.mergePassesIncludedVars = true := by decide
 
 /-- the model's layer order and task-dir flags are that order -/
 theorem docOrder_matches :
